@@ -266,7 +266,7 @@ func buildIncremental(eng *Engine, fv *funcVC, lo, hi int, ms int) (string, []in
 			sb.WriteString("(assert " + it.Text + ")\n")
 		case itOblig:
 			if nob >= lo && nob < hi {
-				sb.WriteString("(push 1)\n(assert (not " + imp(it.Ob.Guard, it.Ob.Formula) + "))\n(check-sat)\n(pop 1)\n")
+				fmt.Fprintf(&sb, "(push 1)\n(assert (not %s))\n(echo \"@ob %d\")\n(check-sat)\n(echo \"@end %d\")\n(pop 1)\n", imp(it.Ob.Guard, it.Ob.Formula), k, k)
 				idx = append(idx, k)
 			}
 			nob++
@@ -323,10 +323,21 @@ func solveIncremental(eng *Engine, fvs []*funcVC, opt solveOpts) map[*Oblig]int6
 				cmd.Run()
 				cancel()
 				per := time.Since(start).Milliseconds() / int64(len(idx)+1)
-				lines := strings.Fields(buf.String())
+				// an answer counts only if the solver printed exactly "unsat" between the markers of that obligation
+				// (robust against error messages, warnings and truncated output)
+				lines := strings.Split(buf.String(), "\n")
+				answers := map[int]string{}
+				for li := 0; li+2 < len(lines); li++ {
+					var k1, k2 int
+					if n, _ := fmt.Sscanf(strings.TrimSpace(lines[li]), "@ob %d", &k1); n == 1 {
+						if m, _ := fmt.Sscanf(strings.TrimSpace(lines[li+2]), "@end %d", &k2); m == 1 && k1 == k2 {
+							answers[k1] = strings.TrimSpace(lines[li+1])
+						}
+					}
+				}
 				mu.Lock()
-				for i, k := range idx {
-					if i < len(lines) && lines[i] == "unsat" {
+				for _, k := range idx {
+					if answers[k] == "unsat" {
 						proved[c.fv.Items[k].Ob] = per
 					}
 				}
@@ -511,10 +522,9 @@ func solveOne(eng *Engine, fv *funcVC, k, id int, opt solveOpts) *Result {
 		res.Status = "sat"
 		res.Model = out
 		res.Query = mfile
-	} else if st == "unsat" {
-		// the weakened hypotheses already suffice: a proof
-		return done("unsat", "z3new+finite-inst", time.Since(start).Milliseconds())
 	}
+	// (an "unsat" here proves nothing: replacing a quantified hypothesis in a negative position by finitely many
+	// instances strengthens it, so the model query is not a weakening of the original one)
 	return res
 }
 
